@@ -142,6 +142,9 @@ func TestSim(t *testing.T) {
 			enum := -1
 			var tape *Tape
 			if job.Mode == "enum" {
+				if int(idx) >= p.EnumSize(job.Tier) {
+					break
+				}
 				enum = int(idx)
 				scn = p.Gen(0, enum, job.Tier)
 				tape = NewSeedTape(uint64(enum))
